@@ -89,6 +89,8 @@ class Check:
                 consumers[-1]['stride'] = rnd.choice([2, 3])        # a subscriber running at a lower rate
             if rnd.random() < 0.25 and C.KINDS[kind].streaming:
                 consumers[-1]['reuse_buffers'] = True                # reads every sample into the same three buffers
+            if rnd.random() < 0.12:
+                consumers[-1][rnd.choice(['int_am', 'int_all'])] = True   # an integer-typed recording (raw counts)
         # sometimes a second instance of the same class sharing its parameter arrays
         if rnd.random() < 0.4:
             src = rnd.choice(consumers)
@@ -134,7 +136,8 @@ class Check:
         # 1. reference: batch constructor, solo, private copies (decimated to the task's own rate), per-task RNG seed
         def own_history(t):
             st = getattr(t, 'stride', 1)
-            return pristine['gyr'][::st].copy(), pristine['acc'][t.key][::st].copy(), pristine['mag'][t.key][::st].copy()
+            g_, a_, m_ = K.typed_history(t.spec, pristine['gyr'], pristine['acc'][t.key], pristine['mag'][t.key])
+            return g_[::st].copy(), a_[::st].copy(), m_[::st].copy()
 
         refs, q_inits = [], []
         for t in pipe.tasks:
@@ -245,12 +248,32 @@ class Check:
             return np.array2string(np.asarray(x), precision=17, max_line_width=200, threshold=12)
         return f'{d(a)} vs {d(b)}'
 
+    @staticmethod
+    def _healthy(t):
+        h = t.hist
+        arrs = [h.gyr if 'g' in t.kind.sensors else None, h.acc[t.key] if 'a' in t.kind.sensors else None, h.mag[t.key] if 'm' in t.kind.sensors else None]
+        for i, x in enumerate(arrs):
+            if x is None:
+                continue
+            if not np.all(np.isfinite(x)):
+                return False
+            if i > 0 and not np.all(np.any(x != 0, axis=1)):
+                return False
+        return True
+
     def _refine(self, viol, t, out, b, stats):
         n = getattr(t, 'n_own', t.hist.n)
         if isinstance(b, K.Crash) or isinstance(b, K.Refusal):
             stats['batch_raised'] = stats.get('batch_raised', 0) + 1
             if getattr(t, 'incomparable', False):
-                return      # no common initial attitude is defined; crashes as such belong to C03
+                # no common initial attitude is defined, so outputs cannot be compared and a numerical breakdown (LinAlgError)
+                # may depend on where the run started (C03's subject).  A *refusal* of the whole history is different: if
+                # every sample of the history is healthy and streaming accepted them all, the two routes disagree on whether
+                # this history has attitudes at all
+                if isinstance(b, K.Refusal) and not any(isinstance(o, (K.Crash, K.Refusal)) for o in out) \
+                        and all(isinstance(o, np.ndarray) for o in out[t.first:t.pos]) and t.pos >= n and self._healthy(t):
+                    viol.append(self._v(t, 'batch-raises', 0, f'batch constructor refused the history with {self._diff(b, None)} although every sample is non-zero and finite and streaming them produced {n - t.first} attitudes'))
+                return
             # the batch constructor rejected/crashed on this history: the stream must fail the same way somewhere
             kinds = {type(o).__name__ + ':' + getattr(o, 'etype', '') for o in out if isinstance(o, (K.Crash, K.Refusal))}
             want = type(b).__name__ + ':' + getattr(b, 'etype', '')
@@ -283,9 +306,8 @@ class Check:
     def _solo(self, t, p, hist, pristine, dip, q0, seed=None, rng_states=None, replay=None):
         """Re-execute task t's stream alone on private copies of its history."""
         st = t.stride
-        gyr = pristine['gyr'][::st].copy()
-        acc = pristine['acc'][t.key][::st].copy()
-        mag = pristine['mag'][t.key][::st].copy()
+        gyr, acc, mag = K.typed_history(t.spec, pristine['gyr'], pristine['acc'][t.key], pristine['mag'][t.key])
+        gyr, acc, mag = gyr[::st].copy(), acc[::st].copy(), mag[::st].copy()
         out = [None] * t.n_own
         try:
             inst = t.kind.make(p, t.dt, dip)
@@ -301,7 +323,7 @@ class Check:
             g = gyr[k] if 'g' in t.kind.sensors else None
             a = acc[k] if 'a' in t.kind.sensors else None
             m = mag[k] if 'm' in t.kind.sensors else None
-            if t.spec.get('reuse_buffers'):
+            if t.spec.get('reuse_buffers') and not (t.spec.get('int_am') or t.spec.get('int_all')):
                 if bufs is None:
                     bufs = [np.zeros(3), np.zeros(3), np.zeros(3)]
                 vals = []
